@@ -323,7 +323,9 @@ def driver_line(case, o):
         return "gen-seg %d %s %s" % (p["max"], nat_ll(perms), raw)
     if op == "gen-pair":
         assign = [e[2] for e in log if e[0] == "choice" and e[1] and all(isinstance(x, str) for x in e[1])]
-        return "gen-pair %d %d %s %s %s" % (p["subset"], p["anchor"], nat_ll(perms), names_ll(assign), raw)
+        pin = [e[1] for e in log if e[0] == "permutation"]
+        anchor = pin[0] if (p["anchor"] > 0 and pin) else []   # the value of unique[argsort(-counts)[:k]] the code went on with
+        return "gen-pair %d %d %s %s %s %s" % (p["subset"], p["anchor"], nat_list(anchor), nat_ll(perms), names_ll(assign), raw)
     if op == "sm-fixed":
         return "sm-fixed %d %s %s" % (p["k"], nat_ll(choices), raw)
     if op == "sm-opt":
